@@ -53,6 +53,37 @@ impl DomainParticipantPermissions {
   }
 }
 
+#[cfg(rustdds_verif)]
+impl DomainParticipantPermissions {
+  pub(crate) fn verif_new(grants: Vec<Grant>) -> Self {
+    Self {
+      grants,
+      original_string: String::new(),
+    }
+  }
+  pub(crate) fn verif_grants(&self) -> &[Grant] {
+    &self.grants
+  }
+}
+
+#[cfg(rustdds_verif)]
+impl Criterion {
+  pub(crate) fn verif_new(
+    topics: Vec<Pattern>,
+    partitions: Vec<Pattern>,
+    data_tags: Vec<(String, String)>,
+  ) -> Self {
+    Criterion {
+      topics,
+      partitions,
+      data_tags: data_tags
+        .iter()
+        .map(|(name, value)| DataTag::new(name, value))
+        .collect(),
+    }
+  }
+}
+
 // A Grant is a set of permissions for a particular DomainParticipant, which
 // is identified as a X.509 subject.
 // The permissions allow or deny the DP to publish, subscribe, or relay messages
@@ -339,13 +370,32 @@ impl Criterion {
   pub fn is_applicable<'a>(
     &self,
     topic_name: &'a str,
-    mut partitions: impl Iterator<Item = &'a &'a str>,
+    partitions: impl Iterator<Item = &'a &'a str>,
     mut data_tags: impl Iterator<Item = &'a (&'a str, &'a str)>,
   ) -> bool {
     debug_assert!(!self.topics.is_empty());
 
+    // An Entity that lists no partitions belongs to the default "empty string" partition, and
+    // a Criterion that lists no partition expressions covers only that default partition.
+    // Without this, a rule restricted to some partitions would vacuously apply to every Entity
+    // that has no partitions.
+    let default_partition_expression = [Pattern::default()]; // matches only ""
+    let partition_expressions = if self.partitions.is_empty() {
+      &default_partition_expression[..]
+    } else {
+      &self.partitions[..]
+    };
+    let partition_is_covered =
+      |p: &str| partition_expressions.iter().any(|glob| glob.matches(p));
+    let mut partitions = partitions.peekable();
+    let partitions_are_covered = if partitions.peek().is_none() {
+      partition_is_covered("")
+    } else {
+      partitions.all(|p| partition_is_covered(p))
+    };
+
     self.topics.iter().any(|glob| glob.matches(topic_name))
-      && partitions.all(|p| self.partitions.iter().any(|glob| glob.matches(p)))
+      && partitions_are_covered
       && data_tags.all(|(name, value)| self.data_tags.iter().any(|dt| dt.check(name, value)))
   }
 
